@@ -137,6 +137,31 @@ def flat_leaves(exc):
     return [exc]
 
 
+class Hang(BaseException):
+    """One execution did not finish within the wall-clock watchdog (synchronous busy loop)."""
+
+
+def _on_alarm(signum, frame):
+    raise Hang("execution did not finish within 20 s of wall-clock time")
+
+
+def _arm_watchdog():
+    import signal
+    import threading
+
+    if threading.current_thread() is threading.main_thread():
+        signal.signal(signal.SIGALRM, _on_alarm)
+        signal.setitimer(signal.ITIMER_REAL, 20.0)
+
+
+def _disarm_watchdog():
+    import signal
+    import threading
+
+    if threading.current_thread() is threading.main_thread():
+        signal.setitimer(signal.ITIMER_REAL, 0)
+
+
 class World:
     """Per-execution registry and event log shared by interpreter and controller."""
 
@@ -240,9 +265,13 @@ def execute(build, prefix=(), *, eager=False, salt=1, fine=False, horizon=5000,
         loop.main_done_hook = hook
     main = build(world)
     ex.main_exc = None
+    _arm_watchdog()
     try:
         ex.main_ret = anyio.run(main, backend_options={"loop_factory": lambda: loop})
         ex.status = "ok"
+    except Hang as e:
+        ex.status = "hang"
+        ex.detail = str(e)
     except LoopAbort as e:
         ex.status = e.kind
         ex.detail = str(e)
@@ -257,6 +286,7 @@ def execute(build, prefix=(), *, eager=False, salt=1, fine=False, horizon=5000,
         else:
             ex.status = "ok"
             ex.main_exc = e
+    _disarm_watchdog()
     if chooser.diverged is not None:
         raise ReplayDivergence(chooser.diverged)
     if chooser.pos < len(chooser.prefix):
